@@ -20,8 +20,8 @@ on every schedule); a Tell whose flag test runs after the actor stopped is rejec
 nothing (`C17_send_after_stop_rejected`).  FALSE: "after Stop returns no user handler runs" —
 the stop of an actor does not wait for a handler that is mid-turn (C06-F1), so the whole chain
 returns while that handler is still inside Receive (`C17_handler_outlives_stop`, the shared
-counterexample); and a grain can still receive the messages queued behind the shutdown pill after its
-OnDeactivate (C31-F2, `C31_receive_after_deactivate`).
+counterexample).  (A grain receiving the messages queued behind the shutdown pill after its
+OnDeactivate — C31-F2 / C17-F2 — was fixed by 6dc1e0c: `C17_grain_drops_after_deactivation`.)
 -/
 import GoaktVerif.Lemmas.C17
 import GoaktVerif.Props.C06
@@ -71,6 +71,14 @@ theorem C17_grain_pill_deactivates (c : GoaktVerif.Model.C31.Cfg) (b : Nat) (res
     c'.deleted = true ∧ c'.active = false ∧ c'.inMap = false ∧ c'.mon.posts = c.mon.posts + 1
       ∧ c'.w = .loop b ∧ c'.box = rest := by
   simp [wStep, hw, hb, ha, GoaktVerif.Model.C31.emit, GoaktVerif.Model.C31.finish, GoaktVerif.Spec.C06.monStep]
+
+open GoaktVerif.Model.C31 in
+/-- fix 6dc1e0c: once deactivated, the turn FAILS a queued user message instead of handing it to
+    OnReceive: no hook event, the message is consumed. -/
+theorem C17_grain_drops_after_deactivation (c : GoaktVerif.Model.C31.Cfg) (b : Nat) (rest : List GMsg)
+    (hw : c.w = .loop (b + 1)) (hb : c.box = .user :: rest) (ha : c.active = false) :
+    (wStep c).log = c.log ∧ (wStep c).box = rest ∧ (wStep c).w = .loop b := by
+  simp [wStep, hw, hb, ha]
 
 /-! ### sends after the stop -/
 
